@@ -111,7 +111,8 @@ def flagsText (edited : Bool) (fheq mdeq : Bool) (f : HeaderFlags) : String :=
     "fheq=" ++ b01 fheq ++ " mdeq=" ++ b01 mdeq ++ " sz=- pad=- dis=- inb=" ++ b01 f.inBounds
 
 /-- parse → edits → write → parse, as the model of the code does it -/
-def modelRun (file : Bytes) (edits : List CEdit) (withView : Bool := true) : String × Option Bytes :=
+def modelRun (file : Bytes) (edits : List CEdit) (withView : Bool := true) (maskInb : Bool := false) :
+    String × Option Bytes :=
   match fromExisting file with
   | .error .fail => ("none", none)
   | .error .panic => ("none", none)   -- reader panic sites return `None` since the C18-5x fixes
@@ -128,8 +129,10 @@ def modelRun (file : Bytes) (edits : List CEdit) (withView : Bool := true) : Str
         | .error .panic => ("none@reparse", some buf)   -- reader panic sites return `None` (C18-5x fixes)
         | .ok m1 =>
           let fl := headerFlags m1.fileHeader buf.length m1.lods
-          ("ok " ++ flagsText (!edits.isEmpty) (buf.take 68 == file.take 68)
-              (decide (m1.modelData = mE.modelData)) fl ++
+          let t := flagsText (!edits.isEmpty) (buf.take 68 == file.take 68)
+              (decide (m1.modelData = mE.modelData)) fl
+          let t := if maskInb then String.ofList (t.toList.dropLast) ++ "-" else t
+          ("ok " ++ t ++
             (if withView then " " ++ viewText m1.view else ""), some buf)
 
 def specText (edited : Bool) (v : View) : String :=
@@ -199,8 +202,70 @@ def freeOk (m : AbstractModel) : Bool :=
 def kfTags (m : AbstractModel) : List String :=
   if hasUnwritable m then ["kf:c07.writer-unsupported-layout"] else []
 
+/-! ### redundant header copies (`wredun`) — correspondence only, no theorem
+
+The file header and the LOD table both store every LOD's vertex / index offsets and buffer sizes.
+`Spec.Mdl.encodeMdl` writes consistent copies; the reader uses `lods[i].vertex_data_offset` and
+`file_header.index_offsets[i]` only.  `wredun redun=<f>.<lod>.<delta>,… <model>` adds `delta` to a
+copy the reader does not use (`lio` = LOD-table index offset, `fvo` = file-header vertex offset,
+`fvs` / `fis` = file-header vertex / index buffer size, `lvs` / `lis` = LOD-table sizes): the file
+still parses to the same model, so parse → write → parse must report the same view, an unchanged
+file header and unchanged model data (the in-bounds flag of the unedited header is not compared). -/
+
+def setArr3 (a : Arr3 UInt32) (i : Nat) (f : UInt32 → UInt32) : Arr3 UInt32 :=
+  match i with
+  | 0 => { a with a := f a.a }
+  | 1 => { a with b := f a.b }
+  | _ => { a with c := f a.c }
+
+/-- `v + d`, or `v − d` where that would leave the `u32` range (a wrapped size would make the writer
+extend the file to gigabytes) -/
+def addDelta (d : Int) (v : UInt32) : UInt32 :=
+  let n : Int := v.toNat + d
+  UInt32.ofNat (if n < 0 || n ≥ 4294967296 then (v.toNat - d).toNat else n.toNat)
+
+def parseRedun (tok : String) : Option (List (String × Nat × Int)) := do
+  let (k, v) ← kv tok
+  if k != "redun" then none
+  (v.splitOn ",").mapM fun it =>
+    match it.splitOn "." with
+    | [f, l, d] => do
+      let l ← l.toNat?
+      let d ← d.toInt?
+      if l < 3 && ["lio", "fvo", "fvs", "fis", "lvs", "lis"].contains f then some (f, l, d) else none
+    | _ => none
+
+def redunFH (fh : FileHeader) (r : String × Nat × Int) : FileHeader :=
+  let (f, l, d) := r
+  if f == "fvo" then { fh with vertexOffsets := setArr3 fh.vertexOffsets l (addDelta d) }
+  else if f == "fvs" then { fh with vertexBufferSize := setArr3 fh.vertexBufferSize l (addDelta d) }
+  else if f == "fis" then { fh with indexBufferSize := setArr3 fh.indexBufferSize l (addDelta d) }
+  else fh
+
+def redunMD (md : ModelData) (r : String × Nat × Int) : ModelData :=
+  let (f, l, d) := r
+  let g : MeshLod → MeshLod :=
+    if f == "lio" then fun x => { x with indexDataOffset := addDelta d x.indexDataOffset }
+    else if f == "lvs" then fun x => { x with vertexBufferSize := addDelta d x.vertexBufferSize }
+    else if f == "lis" then fun x => { x with indexBufferSize := addDelta d x.indexBufferSize }
+    else id
+  { md with lods := md.lods.modify l g }
+
 def handle (line : String) : String :=
   match fields line with
+  | "wredun" :: rtok :: toks =>
+    match parseModel toks, parseRedun rtok with
+    | some a, some rs =>
+      let file := encFileHeader (rs.foldl redunFH (fileHeader a)) ++
+        (encModelData a.version (rs.foldl redunMD (modelData a)) ++ sections a)
+      let (ans, _) := modelRun file [] true true
+      let input := "editr " ++ Bytes.toHex file
+      match inQuantifier a, view a with
+      | true, some v =>
+        answer input ("ok fheq=1 mdeq=1 sz=- pad=- dis=- inb=- " ++ viewText v)
+          (["corr", "redundant-copies"] ++ kfTags a) (some ans)
+      | _, _ => answer input ans ["triv", whyOutside a]
+    | _, _ => bad
   | "write" :: toks =>
     match parseModel toks with
     | none => bad
